@@ -6,6 +6,7 @@ CONSTANT RootClasses = {"PVLModule"}
 CONSTANT MechSet = {}
 CONSTANT Emit = FALSE
 CONSTANT AtomVals = {"x"}
+CONSTANT ChildClasses = {"PVLGroup", "PVLObject"}
 CONSTANT MutNames = {}
 CONSTANT Impl = TRUE
 CONSTANT ScriptMode = "pds3"
